@@ -201,8 +201,8 @@ def directed(thorough):
         [msg("p1", "m1"), msg("p2", "m1"), rel(1, "m1", R), msg("p1", "m2"), rel(1, "m2", A), rel(2, "m2", R), msg("p1", "m3"), rel(2, "m3", A), rel(1, "m3", A)])
     deafm = [V(1, "D", thr=2), V(2, "T1", thr=1, deaf=True), V(3, "T2", thr=2)]
     add("multi_orphan_keeps_validator_token", mkcfg(2, 1, 1, deafm),
-        [msg("p1", "m1"), rel(1, "m1", R), msg("p1", "n1"), msg("p1", "m2"), rel(1, "n1", A), rel(3, "n1", A), msg("p2", "m3"),
-         rel(2, "m1", A), msg("p1", "m4"), rel(1, "m4", A), rel(2, "m4", A)])
+        [msg("p1", "m1"), rel(1, "m1", R), msg("p1", "m2"), msg("p1", "n1"), rel(1, "m2", A), msg("p1", "n1"), rel(1, "n1", A), rel(3, "n1", A), msg("p2", "m3"),
+         rel(1, "m3", I), rel(2, "m1", A), msg("p1", "m4"), rel(1, "m4", A), rel(2, "m4", A)])
     add("multi_inline_ignore_then_async", mkcfg(2, 1, 1, [V(1, "D", inl=True), V(2, "T1", thr=1), V(3, "T2", thr=1)]),
         [msg("p1", "m1"), rel(1, "m1", I), msg("p1", "n1"), rel(1, "n1", A), rel(2, "m1", A), msg("p1", "n2"), rel(1, "n2", I), rel(3, "n2", R),
          msg("p1", "m2"), rel(1, "m2", R), msg("p1", "m3"), rel(1, "m3", A), rel(2, "m3", A)])
@@ -503,7 +503,7 @@ def _ln(scn, i, a, ev, x, t=None, act=None):
 
 def _reset(scn, qcap=1, nw=1, gthr=1, vals=None, **kw):
     vals = vals if vals is not None else [V(2, "T1", thr=1), V(3, "T2", inl=True)]
-    c = {"qcap": qcap, "nw": nw, "gthr": gthr, "nv": 3, "router": "floodsub", "tv": 2, "qcapReal": qcap, "gthrReal": gthr, "nwReal": nw, "wk": nw,
+    c = {"qcap": qcap, "nw": nw, "gthr": gthr, "nv": 3, "router": "floodsub", "tv": 2, "sendCap": 32, "qcapReal": qcap, "gthrReal": gthr, "nwReal": nw, "wk": nw,
          "vals": [dict(v, cap=v["thr"]) for v in vals]}
     c.update(kw)
     return {"scn": scn, "i": 0, "t": 1000, "a": "reset", "name": "selftest", "cfg": c}
@@ -624,7 +624,7 @@ def coverage_hits(s, tr, hits):
         solo = ln["a"] == "msg"
         q0 = qocc
         holders0 = {m for (v, m, loc) in open_inv if v in asyncv and not loc and m not in final}
-        vopen0 = {}
+        vopen0, open0, final0, regd_before = {}, set(open_inv), dict(final), dict(regd)
         for (v, m, loc) in open_inv:
             if not loc and v in asyncv:
                 vopen0[v] = vopen0.get(v, 0) + 1
@@ -668,17 +668,6 @@ def coverage_hits(s, tr, hits):
             if k == "Rej" and e["why"] == "T" and not e["loc"]:
                 thr_ids.add(m)
                 final[m] = "T"
-                if solo:
-                    top_v = regd["T2" if m.startswith("n") else "T1"]
-                    appl = [x for x, c in vc.items() if c["top"] == "D"] + ([top_v] if top_v else [])
-                    av = [x for x in appl if x in asyncv]
-                    if len(holders0) == cfg["gthr"] and all(vopen0.get(x, 0) < vc[x]["thr"] for x in av):
-                        hit("global_throttle_exactly_at_capacity")
-                    if len(holders0) < cfg["gthr"] and any(vopen0.get(x, 0) == vc[x]["thr"] for x in av):
-                        hit("validator_throttle_exactly_at_capacity_single" if len(av) == 1 else "validator_throttle_exactly_at_capacity_multi")
-                        hit("ended_throttled_by_validator")
-                        if any(vopen0.get(x, 0) == vc[x]["thr"] and all(mm in final for (vv, mm, ll) in open_inv if vv == x) for x in av):
-                            hit("orphan_holds_validator_token")
             if k == "Enter":
                 open_inv[(v, m, e["loc"])] = e
                 if e["loc"]:
@@ -734,6 +723,26 @@ def coverage_hits(s, tr, hits):
                 hit("ended_reject" if e["why"] == "R" else "ended_ignore")
         if solo and ln["ev"] and len(ln["ev"]) == 1 and ln["ev"][0]["k"] == "Arr" and q0 == cfg["qcap"] - 1 and qf_ids:
             hit("queue_slot_reused_after_take")
+        if solo:
+            # the throttle decision for the message of this step is taken in this step (the outcome may be traced later)
+            m = ln["act"]["m"]
+            if any(e["k"] == "Val" and e["m"] == m for e in ln["ev"]):
+                top_v = regd_before["T2" if m.startswith("n") else "T1"]
+                appl = [x for x, c in vc.items() if c["top"] == "D"] + ([top_v] if top_v else [])
+                av = [x for x in appl if x in asyncv]
+                ent = {e["v"] for e in ln["ev"] if e["k"] == "Enter" and e["m"] == m and not e["loc"]}
+                inl_pending = any(x not in asyncv and (x, m, False) in open_inv for x in appl)
+                rejT = any(e["k"] == "Rej" and e["m"] == m and e["why"] == "T" for e in ln["ev"])
+                skipped = [x for x in av if x not in ent]
+                if av and not inl_pending and skipped and (rejT or ent & set(av)):
+                    exhausted = [x for x in skipped if vopen0.get(x, 0) == vc[x]["thr"]]
+                    if not (ent & set(av)) and len(holders0) == cfg["gthr"] and not exhausted:
+                        hit("global_throttle_exactly_at_capacity")
+                    if len(holders0) < cfg["gthr"] and exhausted:
+                        hit("validator_throttle_exactly_at_capacity_single" if len(av) == 1 else "validator_throttle_exactly_at_capacity_multi")
+                        hit("ended_throttled_by_validator")
+                        if any(all(mm in final0 for (vv, mm, ll) in open0 if vv == x and not ll) for x in exhausted):
+                            hit("orphan_holds_validator_token")
     if s["name"].startswith("churn") and ntaken >= 4 * cfg["gthr"]:
         hit("churn_many_times_capacity")
 
@@ -811,7 +820,7 @@ def run(ctx):
 
     # ---- trace validation by TLC
     viols, st_tv = validate(ctx, [tr for _, tr in traces] + [opt_lines], "tv")
-    hits, drifts, nontrivial, aborted = {}, [], set(), 0
+    hits, drifts, nontrivial, aborted, compared = {}, [], set(), 0, 0
     for i, tr in traces:
         s = scns[i]
         coverage_hits(s, tr, hits)
@@ -823,6 +832,8 @@ def run(ctx):
         d = drift(s, tr)
         if d:
             drifts.append((s, d))
+        if s.get("exp") and not s["exp"].get("racy") and s["exp"].get("drained"):
+            compared += 1
 
     mst, mtr, mc_info = join_mc(ctx, mc_futs)
     pool.shutdown()
@@ -882,7 +893,7 @@ def run(ctx):
                    "or directed; one evaluation = one predicate on one recorded scenario; non-trivial = at least two different outcomes traced; "
                    "distinct by (configuration, stimulus sequence)",
            "exhaustive": False, "exhaustive_tiny_universe": exhaustive_bfs, "mc": mc_info, "generated": n_gen, "directed": n_dir,
-           "step_lines": nlines, "option_probes": len(opt_lines), "drift": len(drifts), "aborted_scenarios": aborted,
+           "step_lines": nlines, "option_probes": len(opt_lines), "drift": len(drifts), "drift_compared": compared, "aborted_scenarios": aborted,
            "predicates": PREDS, "obligations_detail": {o: hits.get(o, 0) for o in OBLIGATIONS}, "other_hits": {k: v for k, v in hits.items() if k not in OBLIGATIONS}}
     return vlib.finish(ctx, LEVEL, cov, ASSUMPTIONS)
 
